@@ -30,13 +30,14 @@ def canon_real(r):
             "links": sorted(sorted(e2["path"] for e2 in r["fs"] if e2["ino"] == e["ino"]) for e in r["fs"])}
 
 
-def shared_one(chk, sseed):
-    """the point excluded by `Disjoint`: byte-identical sibling indices sharing a by-hash target"""
+def shared_one(chk, sseed, fillers=0):
+    """the point excluded by `Disjoint`: byte-identical sibling indices sharing a by-hash target (with `fillers`: in a queue
+    longer than download()'s window of 128 tasks, so that a sibling can be dequeued after another one has finished)"""
     rng = random.Random(sseed)
-    sc = l1.gen_shared_scenario(rng)
+    sc = l1.gen_shared_scenario(rng, fillers)
     replay = l1.scenario_to_json(sc)
     results = []
-    for k in range(8):
+    for k in range(8 if not fillers else 4):
         r, files = l1.run_real(sc, chooser=vloop.RandomChooser(rng.randrange(1 << 30)), nthreads=rng.choice([2, 4, 8]))
         cr = canon_real(r)
         cr.pop("counters")          # which sibling transfers and which one links is not part of the property
@@ -172,6 +173,9 @@ def run(chk, tier, rng):
         l1_one(chk, f"C15-{chk.seed}-{i}")
     for i in range(40 if tier == "quick" else 1000):
         shared_one(chk, f"C15s-{chk.seed}-{i}")
+    for i in range(12 if tier == "quick" else 300):
+        shared_one(chk, f"C15sl-{chk.seed}-{i}", fillers=random.Random(f"f{chk.seed}-{i}").randint(140, 220))
+        chk.count("shared_target_scenarios_with_queue_over_128")
     for i in range(10 if tier == "quick" else 300):
         e2e_one(chk, f"C15e-{chk.seed}-{i}")
     chk.assumptions += ["distinct queue entries never share a target path or URL (Disjoint); the excluded point is finding F-C05a",
